@@ -14,7 +14,7 @@ From BV Require Import Base.Prelude Model.Block Model.ForkDB Model.Forkable Mode
   Proofs.C07_File Proofs.C07_Live
   Proofs.C07_ComposeStack Proofs.C07_ComposeHub Proofs.C07_ComposeRun Proofs.C07_Compose
   Proofs.C07_ComposeCursor Proofs.C07_ComposeCursorLive Proofs.C07_ComposeCursorAll Proofs.C07_ComposeTarget
-  Proofs.C07_Raw Proofs.C07_Shapes Proofs.C07_Filters Proofs.C07_ChainFacts Proofs.C07_Delivery.
+  Proofs.C07_FilesFinal Proofs.C07_Raw Proofs.C07_Shapes Proofs.C07_Filters Proofs.C07_ChainFacts Proofs.C07_Delivery.
 Local Open Scope N_scope.
 
 Section TgtRun.
@@ -273,4 +273,11 @@ Proof.
   { split; [|exact Hrest]. rewrite Hhub. apply (hub_ok_run U (j_first c) (j_kept c) Hwfb Hlok l Hl). }
   exact (tgt_nu U c w ps merged_end canon forked cu B start Hid Huniq Hup Hdecl Hchain Hincl Hstartblk eq_refl HW Htip Hmode Hcur Hnu
            Hbundle HBc HB Hbound Hfo Hto).
+Qed.
+
+Lemma c07_seamless_target_nu_final_proof : C07_seamless_target_nu_final.
+Proof.
+  intros U c w ps merged_end canon forked cu B Hwfb Hlok Hhub Hchain Hincl merged Htip Hff Hto.
+  apply (c07_seamless_target_nu_proof U c w ps merged_end canon forked cu B Hwfb Hlok Hhub Hchain Hincl Htip); [|exact Hto].
+  exact (Proofs.C07_FilesFinal.c07_files_final_on_hub_proof U c w merged_end canon Hwfb Hlok Hhub Hchain Hincl Htip Hff).
 Qed.
